@@ -433,6 +433,9 @@ pub struct Machine<'p> {
     /// flags were invalidated by an external call (and not set again since)
     pub flags_clobbered: bool,
     pub max_written: u64,
+    /// heap and free registers at the marker of a print statement (must be unchanged at the next
+    /// statement boundary)
+    pub print_guard: Option<((u64, bool), (u64, bool))>,
     /// lowest stack address written so far
     pub stack_low: u64,
     pub prints: Vec<PrintEv>,
@@ -583,6 +586,7 @@ impl<'p> Machine<'p> {
             flags: None,
             flags_clobbered: false,
             max_written: 0,
+            print_guard: None,
             stack_low: STACK_TOP,
             prints: Vec::new(),
             stats: EmuStats::default(),
@@ -618,6 +622,20 @@ impl<'p> Machine<'p> {
                 self.stats.markers += 1;
                 *self.stats.marker_kinds.entry(mk.kind.clone()).or_insert(0) += 1;
                 self.stats.max_env = self.stats.max_env.max(mk.env.len());
+                {
+                    let now = (self.get(backend_reg(HEAP)), self.get(backend_reg(FREE)));
+                    if let Some(before) = self.print_guard.take() {
+                        if before != now && before.0.1 && before.1.1 {
+                            return Self::viol(
+                                ViolationKind::Abi,
+                                format!("heap/free registers changed across a print statement: ({:#x}, {:#x}) before, ({:#x}, {:#x}) after (they must survive the external call)", before.0.0, before.1.0, now.0.0, now.1.0),
+                            );
+                        }
+                    }
+                    if mk.kind == "print" {
+                        self.print_guard = Some(now);
+                    }
+                }
                 if cfg.heap_check_every > 0 && self.stats.markers % cfg.heap_check_every == 0 {
                     let roots = self.roots_for(mk.env.len());
                     let heap_reg = self.get(backend_reg(HEAP));
